@@ -162,12 +162,12 @@ let () =
                if s = want then ()
                else if k = key && op <> "abort" && s = "b:" ^ content then ()
                else if s = "absent" then add "lost_committed"
-               else if String.length s > 2 && String.sub s 0 2 = "b:" then add "partial"
+               else if String.length s >= 2 && String.sub s 0 2 = "b:" then add "partial"
                else add "unreadable") pres;
            if op <> "abort" && not (List.exists (fun (k, _) -> k = key) pres) then begin
              let s = status key in
              if s = "absent" || s = "b:" ^ content then ()
-             else if String.length s > 2 && String.sub s 0 2 = "b:" then add "partial"
+             else if String.length s >= 2 && String.sub s 0 2 = "b:" then add "partial"
              else add "unreadable";
              if ires = "ok" && s <> "b:" ^ content then add "acked_not_stored"
            end
